@@ -19,9 +19,10 @@ import (
 // reproduced the violation on the real code.
 func tryReplay(o *checkOpts, plan *Plan, ob *Obligation, rec map[string]any) bool {
 	if ob.Inputs == nil {
-		rec["replayed"] = false
-		rec["replay_note"] = "no candidate inputs (verdict " + ob.Verdict + "; " + ob.ModelNote + ")"
-		return false
+		// no candidate inputs from the bounded search: templates that do not
+		// depend on inputs (scenario replays) still run.
+		rec["replay_note"] = "no candidate inputs from the bounded search (verdict " + ob.Verdict + "; " + ob.ModelNote + "); scenario template run without inputs"
+		ob.Inputs = map[string]string{}
 	}
 	var spec *ReplaySpec
 	for i := range plan.Replays {
